@@ -54,6 +54,16 @@ NEEDS = {
  "C08c": ("delete: positional names get value_delimiter = ','", "a sample name containing a comma passed on the command line"),
  "C09c": ("Weed arm, 128-bit branch ignores -o and overwrites the input", "k >= 33 file, ska weed ... -o OUT.skf"),
  "C10c": ("update_counts sums presence in a u8", "a file with >= 256 samples and a k-mer present in >= 256 of them, followed by delete/align/distance/weed"),
+ "C11c": ("multi_append (parallel path only) no longer forwards the second read file", "paired FASTQ through a three-column file list, >= 10 samples, --threads >= 2"),
+ "C12c": ("Build arm, 128-bit branch fills --qual-filter from Default (strict)", "k >= 33 with --qual-filter middle or no-filter and a low-quality non-middle base"),
+ "C13c": ("RefSka::new hands the raw record buffer (line breaks included) to the k-mer iterator", "a weed (or reference) FASTA with wrapped sequence lines"),
+ "C14c": ("Distance arm, 128-bit branch passes 0.0 instead of --min-freq", "k >= 33, --min-freq with threshold >= 2 and a k-mer below it"),
+ "C15c": ("Distance arm, 128-bit branch passes allow_ambiguous where filter_ambiguous is expected", "k >= 33, ska distance --allow-ambiguous on a table with ambiguity codes: every code is masked to N"),
+ "C16c": ("u64 rev_comp: 16-bit-swap mask 0x0000_0000_0000_FFFF", "64-bit path, k in {27,29,31}, two-strand mode, k-mers built from scratch"),
+ "C17c": ("ska lo reference reader: GzDecoder instead of MultiGzDecoder", "ska lo -r with a .gz reference of more than one gzip member and a SNP beyond the first member"),
+ "C18c": ("skalo(): sample names sorted in place before use (duplicate check)", "an skf whose sample order is not lexicographically sorted: headers of the lo outputs are sorted while the genotype columns stay in skf order"),
+ "C19c": ("merge(): a later input that fails to load is skipped with a warning", "a damaged .skf in a non-first position of ska merge"),
+ "C20c": ("CoverageHistogram counts in a saturating u8", ">= 50 distinct split k-mers with multiplicity above 255 (multi-copy element or very deep data)"),
  "C20b": ("CoverageHistogram::new: break instead of skip at the first read without a valid split k-mer", "a read shorter than k or with every N-free stretch shorter than k, followed by more reads in the same file"),
 }
 HISTORY = {
@@ -68,6 +78,12 @@ HISTORY = {
  "C05c": "missed when written (1-4 samples); a sixth of the C04/C05 cases now have 9-12 samples",
  "C08c": "missed when written (names were s0..s7); the shared sample-set generator now uses names with a comma, a dot, '=', '#' and '-' inside",
  "C10c": "missed when written (at most 12 samples in histories); C10 has a wide_tables stage with 255-513 samples",
+ "C11c": "missed when written (C11 built from FASTA only); the pipeline stage now also builds from paired FASTQ files through a three-column list",
+ "C13c": "reported by C04 (wrapped references) but missed by C13 itself (its weed FASTA was written unwrapped); C13 now wraps the weed file at generated widths",
+ "C15c": "missed when written (the weights were only observed in-process, below the command-line dispatch); the weights_through_cli stage runs ska distance --allow-ambiguous on tables with ambiguity codes for both integer widths",
+ "C17c": "missed when written (references were plain files); a third of the -r cases now use a gzip reference, most of them with two gzip members",
+ "C18c": "missed when written (sample names smp0..smp7 were already sorted and the header of the indel VCF was not read); names are now unsorted and the sample columns of the indel VCF must be in input order",
+ "C20c": "missed when written (multiplicities never exceeded about 150); an eighth of the read sets now contain a 4-6 kb element in 6-8 copies at coverage >= 50, so that >= 50 k-mers share multiplicities above 255",
  "C17": "missed by the first version of the C17 check (ska lo was always run with the default -m or 0.4); the -m values 0, 0.05, 0.4, 1 were added to the isolated-SNP stages and now report it",
 }
 res = {}
